@@ -9,7 +9,7 @@
    the textbook definitions on a 2-variable universe.
 
    Nothing in this module knows about diagrams, nodes or managers. *)
-EXTENDS Integers, FiniteSets, Sequences, TLC
+EXTENDS Integers, FiniteSets, Sequences, TLC, Bitwise
 
 Pow2(k) == 2^k
 Univ(n) == 0..(Pow2(n) - 1)
@@ -70,8 +70,9 @@ BinSem(n, c, F, G) ==
     [] c = "diff" -> DiffF(F, G)
 
 (* ---- quantification ---- *)
-ExistsK(n, k, F) == {i \in Univ(n) : i \in F \/ Flip(i, k) \in F}
-ForallK(n, k, F) == {i \in Univ(n) : i \in F /\ Flip(i, k) \in F}
+FlipSet(F, k) == LET w == Pow2(k - 1) IN {IF (i \div w) % 2 = 1 THEN i - w ELSE i + w : i \in F}
+ExistsK(n, k, F) == F \cup FlipSet(F, k)
+ForallK(n, k, F) == F \cap FlipSet(F, k)
 RECURSIVE ExistsF(_, _, _), ForallF(_, _, _)
 ExistsF(n, K, F) == IF K = {} THEN F
                     ELSE LET k == CHOOSE x \in K : TRUE
@@ -85,7 +86,7 @@ SameOutside(n, i, j, K) == \A k \in 1..n : k \in K \/ Bit(i, k) = Bit(j, k)
 ExistsDef(n, K, F) == {i \in Univ(n) : \E j \in F : SameOutside(n, i, j, K)}
 ForallDef(n, K, F) == {i \in Univ(n) : \A j \in Univ(n) : SameOutside(n, i, j, K) => j \in F}
 
-DependsOn(n, F, k) == \E i \in Univ(n) : (i \in F) # (Flip(i, k) \in F)
+DependsOn(n, F, k) == FlipSet(F, k) # F
 Support(n, F) == {k \in 1..n : DependsOn(n, F, k)}
 IndependentOf(n, F, K) == \A k \in K : ~DependsOn(n, F, k)
 
@@ -111,7 +112,12 @@ CountF(n, F, nv) == IF nv >= n THEN Cardinality(F) * Pow2(nv - n)
 
 (* ---- cubes / partial assignments ----
    a partial assignment is a function from variable numbers to BOOLEAN *)
-CubeF(n, pa) == {i \in Univ(n) : \A k \in DOMAIN pa : Bit(i, k) = pa[k]}
+RECURSIVE WeightSum(_)
+WeightSum(ks) == IF ks = {} THEN 0 ELSE LET k == CHOOSE x \in ks : TRUE IN Pow2(k - 1) + WeightSum(ks \ {k})
+CubeDef(n, pa) == {i \in Univ(n) : \A k \in DOMAIN pa : Bit(i, k) = pa[k]}
+CubeF(n, pa) == LET care == WeightSum(DOMAIN pa)
+                    val == WeightSum({k \in DOMAIN pa : pa[k]})
+                IN {i \in Univ(n) : (i & care) = val}
 
 (* ---- relational product (image / preimage), as in the property text ---- *)
 PreimageF(n, T, Target, ren, K, forall) ==
@@ -133,6 +139,11 @@ SanityBoolFun ==
             /\ ExistsF(n, K, F) = ExistsDef(n, K, F)
             /\ ForallF(n, K, F) = ForallDef(n, K, F)
             /\ IndependentOf(n, ExistsF(n, K, F), K)
+     /\ \A K \in SUBSET (1..n) : \A pa \in [K -> BOOLEAN] : CubeF(n, pa) = CubeDef(n, pa)
+     /\ \A F \in Fs : \A k \in 1..n :
+            /\ ExistsK(n, k, F) = {i \in Univ(n) : i \in F \/ Flip(i, k) \in F}
+            /\ ForallK(n, k, F) = {i \in Univ(n) : i \in F /\ Flip(i, k) \in F}
+            /\ DependsOn(n, F, k) = (\E i \in Univ(n) : (i \in F) # (Flip(i, k) \in F))
      /\ Support(n, XorF(x, y)) = {1, 2}
      /\ Support(n, TrueF(n)) = {}
      /\ ComposeF(n, AndF(x, NotF(n, y)), (1 :> y) @@ (2 :> x)) = AndF(y, NotF(n, x))  \* swap is simultaneous
